@@ -242,6 +242,9 @@ func main() {
 			} else if g.Rng().Chance(6, 100) {
 				in = g.LitQInput()
 				kind = "edge"
+			} else if g.Rng().Chance(6, 100) {
+				in = g.TightInput()
+				kind = "edge"
 			} else {
 				in = g.Input()
 				if g.Rng().Chance(15, 100) {
